@@ -173,11 +173,12 @@ func TestC18Replicas(t *testing.T) {
 			}
 			// race-detector replicas: 4 concurrent replicas per chain plus concurrent queries in a -race process
 			raceReports, raceICS := 0, []string{}
-			if rb := os.Getenv("VERIF_RACE_BIN"); rb != "" {
+			// (the first world of every profile; a bounded prefix of every chain - the detector costs an order of magnitude)
+			if rb := os.Getenv("VERIF_RACE_BIN"); rb != "" && j.idx == 200 {
 				rout := fmt.Sprintf("%s/race-%s.json", outdir, name)
 				rlog := fmt.Sprintf("%s/racelog-%s", outdir, name)
 				cmd := exec.Command(rb, "-test.run", "TestReplicaChild$", "-test.timeout", "0")
-				cmd.Env = append(os.Environ(), "VERIF_REC="+recPath, "VERIF_REPLICA_OUT="+rout, "VERIF_REPLICAS=4", "VERIF_REPLICA_QUERIES=1", "VERIF_DIRECTED=",
+				cmd.Env = append(os.Environ(), "VERIF_REC="+recPath, "VERIF_REPLICA_OUT="+rout, "VERIF_REPLICAS=3", "VERIF_REPLICA_QUERIES=1", "VERIF_REPLICA_MAXBLOCKS=200", "VERIF_DIRECTED=",
 					"GORACE=halt_on_error=0 log_path="+rlog)
 				outb, rerr := cmd.CombinedOutput()
 				var o replicaOutcome
@@ -194,7 +195,7 @@ func TestC18Replicas(t *testing.T) {
 			os.Remove(recPath)
 			mu.Lock()
 			defer mu.Unlock()
-			if os.Getenv("VERIF_RACE_BIN") != "" {
+			if os.Getenv("VERIF_RACE_BIN") != "" && j.idx == 200 {
 				agg.Event("C18", "race-detector-runs")
 				agg.EventN("C18", "race-reports-total", int64(raceReports))
 				for _, sig := range raceICS {
